@@ -70,6 +70,11 @@ THEOREMS = {
                                 ("BS.Props.C08", "BS.Props.C08.appending_keeps_caches_exact"),
                                 ("BS.Props.C08", "BS.Props.C08.bucketMeans_length"),
                                 ("BS.Props.C08", "BS.Props.C08.bucketMeans_get")]),
+    "C19": (["BS.Props.C19", "BS.Props.C11", "BS.Props.C04"], [("BS.Props.C19", "BS.Props.C19.queries_never_panic"),
+                                ("BS.Props.C19", "BS.Props.C19.appends_never_panic"),
+                                ("BS.Props.C19", "BS.Props.C19.oversized_header_is_error"),
+                                ("BS.Props.C11", "BS.Props.C11.estimate_total"),
+                                ("BS.Props.C04", "BS.Props.C04.last_meta_timestamp_exact")]),
     "C18": (["BS.Props.C18"], [("BS.Props.C18", "BS.Props.C18.no_consent_is_error"),
                                 ("BS.Props.C18", "BS.Props.C18.skipping_drops"),
                                 ("BS.Props.C18", "BS.Props.C18.consent_resumes_at_next_section")]),
@@ -185,7 +190,7 @@ LEVEL_TEXT = {
  "C16": "Kernel-checked for the write path: push_data and the cache's process only append to data and index files (pushData_appends, cacheProcess_appends). That reads/counts/accessors never write is true of the model by construction (pure functions) and is carried by the differential file audit: bsrun snapshots every file before and after every call and the change class (same/append/other) is compared with the model's and with the rule.",
  "C17": "Differential only for the create/open contract (header lengths around the 16-bit limit for three payload sizes, binary headers containing the parser's own patterns, every builder option combination, stale sidecar files, directory listing before/after); the header text round trip (T10) is not proved. Supporting kernel-checked facts: none specific. One known finding (stale-cache-create).",
  "C18": "Kernel-checked on the model of read_with_processor, for every processor and every content around the damage: without consent the read stops with CorruptMetaSection exactly at the damaged section; with consent every line up to the next intact section is dropped without reaching the processor and reading resumes after that section with its timestamp (no_consent_is_error, skipping_drops, consent_resumes_at_next_section). Differential incl. damaged sections longer than one and two read buffers.",
- "C19": "By-products, kernel-checked on the model: no panic/never-ending loop in last_meta_timestamp (C04), estimate_lines (C11), the seek for every pair of bounds (C02: the result is a value or a range error, never .panic), the reader on canonical data (C01), push_line (C03); n = 0 returns nothing by definition of the model. Not a single all-operations theorem: apiOpen/header parsing and caches are differential only (extreme-argument cross product with a panic hook and a watchdog per script). Known finding marker-tail applies."
+ "C19": "Kernel-checked on the model: in every state satisfying the session invariant for ANY history (empty included; no caches) and for EVERY pair of bounds and EVERY n (0 included) read_all, read_first_n, read_n, n_lines_between, len, last_line return a value or an error, never a panic, and n = 0 returns nothing (queries_never_panic; read_n under <= 2^32 lines per file); creating a series with any admissible configuration and making ANY sequence of append attempts never panics (appends_never_panic, all cache levels included); an oversized header is an error that creates nothing (oversized_header_is_error); estimate_lines and last_meta_timestamp cannot fault or loop (C11, C04). Not covered by a theorem: open of damaged files beyond C05's hypotheses, read_n through caches, header parsing on foreign files - those are differential (extreme-argument cross product, panic hook, watchdog per script). Known finding marker-tail applies."
 }
 
 for _pid, _cfg in PROPS.items():
